@@ -26,6 +26,7 @@ OP2CLS = {
     "prim_seg": "UpdateNodeSeg+inverse",
     "ctrl": "TracksController",
     "reload": "save+load",
+    "rescale": "scale changed + bulk recompute",
 }
 
 
@@ -1011,6 +1012,10 @@ class FeatureSwitchMonitor(Monitor):
         self.trusted = set(self.enabled) - {t.features.tracklet_key, t.features.lineage_key}
         self.frozen: dict[str, dict] = {}  # disabled key -> {element: (dict id, value)}
         self.id_ok: dict[str, bool] = {}
+        self.renumbered = False
+        self.id_judge = True
+        self.special_keys = (t.features.time_key, norm_(t.features.position_key),
+                             t.features.tracklet_key, t.features.lineage_key)
         return self._registry(sess, "construction")
 
     def _registry(self, sess, where):
@@ -1100,6 +1105,8 @@ class FeatureSwitchMonitor(Monitor):
                                      f"{rec.out.exc_msg}", f"C10/raised/{rec.out.exc_type}"))
                 return out
             idkeys = {t.features.tracklet_key, t.features.lineage_key}
+            if set(en) & idkeys and rec.op.get("recompute", True):
+                self.renumbered = True
             for x in en:
                 self.enabled.add(x)
                 self.frozen.pop(x, None)
@@ -1122,6 +1129,15 @@ class FeatureSwitchMonitor(Monitor):
             self.keys.add(f"switch/en={sorted(en)}/dis={sorted(dis)}/"
                           f"rc={rec.op.get('recompute', True)}")
             out += self._registry(sess, f"features {rec.op}")
+            if not out and en:
+                fk = (t.features.time_key, norm_(t.features.position_key),
+                      t.features.tracklet_key, t.features.lineage_key)
+                self.evals += 1
+                if fk != self.special_keys:
+                    out.append(violation(
+                        "registry", f"after {rec.op} the registry's special keys (time, "
+                        f"position, tracklet, lineage) are {fk}, they were {self.special_keys}",
+                        "C10/registry/special-keys"))
             if not out and en and rec.op.get("recompute", True):
                 out += self._values(sess, set(en), f"after enabling {en} with recomputation")
             return out
@@ -1169,7 +1185,11 @@ class FeatureSwitchMonitor(Monitor):
         # the id features, while enabled, stay right across every NEW edit (preservation
         # form: judged only if they were right before the edit; undo / redo are not judged
         # here because a bulk re-numbering makes older history entries refer to old ids)
-        if not out and k in EDIT_OPS and rec.out.ok:
+        if k in ("undo", "redo") and self.renumbered:
+            # history entries recorded before a bulk re-numbering refer to the old ids; once
+            # one of them has been replayed the id state of this session is not judged any more
+            self.id_judge = False
+        if not out and k in EDIT_OPS and rec.out.ok and self.id_judge:
             tk, lk = t.features.tracklet_key, t.features.lineage_key
             for key, fn in ((tk, checks.track_partition), (lk, checks.lineage_partition)):
                 if key in self.enabled:
